@@ -41,7 +41,7 @@ def parseInstr (t : String) : Option Exec.Instr :=
 
 def parseDir (t : String) : Option Exec.Dir :=
   let arg := (t.drop 1).toString
-  if t == "U" then some .dlvEnd else
+  if t == "U" then some .dlvEnd else if t == "P" then some .hold else
   if t.startsWith "A" then
     match arg.splitOn ":" with
     | [k, s] => do some (.adv (← k.toNat?) (← s.toNat?))
